@@ -945,7 +945,7 @@ def run(ctx):
     parts = [
         ("boxes", "part_boxes", {"seed": seed, "n_sweep": 160 if not th else 900, "n_seeded": 240 if not th else 2000,
                                  "sweep_depth": 3 if not th else 4, "max_depth": 12 if not th else 15, "nproc": nproc}, 400 if not th else 900),
-        ("footprints", "part_footprints", {"seed": seed + 1, "n_images": 60 if not th else 700, "max_depth": 13 if not th else 15,
+        ("footprints", "part_footprints", {"seed": seed + 1, "n_images": 60 if not th else 500, "max_depth": 13 if not th else 15,
                                            "nproc": nproc, "probes_per_image": 10 if not th else 20,
                                            "n_aligned": 500 if not th else 6000}, 400 if not th else 900),
         ("chunks", "part_chunks", {"seed": seed + 2, "n_maps": 6 if not th else 60, "max_depth": 9 if not th else 12, "nproc": 6}, 400 if not th else 900),
